@@ -223,6 +223,10 @@ class Validation:
         if not allow_empty_area and is_empty_area(area=self.area, traces=self.traces):
             log.error(f"No traces within target area with name: {self.name}.")
             empty_gdf: gpd.GeoDataFrame = self.traces.copy()
+            # The empty target area error is documented to be in all traces.
+            empty_gdf[self.ERROR_COLUMN] = [
+                (trace_validators.EmptyTargetAreaValidator.ERROR,)
+            ] * empty_gdf.shape[0]
             return empty_gdf
 
         all_errors: List[List[str]] = []
